@@ -1,5 +1,5 @@
 (* Lemmas about Model/Descriptive.v. *)
-From Coq Require Import List Bool ZArith QArith Qround Qfield Lia Sorting.Sorted Arith.
+From Coq Require Import List Bool ZArith QArith Qround Qfield Qabs Lia Sorting.Sorted Arith.
 From Splinkv Require Import Base.GroupBy Base.CumSum Model.Descriptive.
 Import ListNotations.
 Local Open Scope Z_scope.
@@ -691,4 +691,40 @@ Proof.
   exists rest. split; [exact H1|]. split; [exact H2|]. split.
   - eapply StronglySorted_impl'; [|exact H3]. intros a b. apply Z.leb_le.
   - intros x y Hx Hy. apply Z.leb_le. apply H4; assumption.
+Qed.
+
+(* ================================================================== the chosen bin width is the nearest listed one *)
+Lemma choose_bin_width_nearest mn mx nb w :
+  In w bin_widths ->
+  (Qabsd (choose_bin_width mn mx nb) ((mx - mn) / inject_Z nb) <= Qabsd w ((mx - mn) / inject_Z nb))%Q.
+Proof.
+  unfold choose_bin_width. set (rough := ((mx - mn) / inject_Z nb)%Q).
+  set (step := fun (best : Q * Q) (bw : Q) =>
+                 let d := Qabsd bw rough in if Qle_bool (snd best) d then best else (bw, d)).
+  assert (G : forall l best seen,
+             snd best = Qabsd (fst best) rough ->
+             (forall x, In x seen -> (snd best <= Qabsd x rough)%Q) ->
+             snd (fold_left step l best) = Qabsd (fst (fold_left step l best)) rough /\
+             forall x, In x (seen ++ l) -> (snd (fold_left step l best) <= Qabsd x rough)%Q).
+  { induction l as [|y t IH]; intros best seen Hb Hs; cbn [fold_left].
+    - split; [exact Hb|]. intros x Hx. rewrite app_nil_r in Hx. apply Hs. exact Hx.
+    - destruct (IH (step best y) (seen ++ [y])) as [I1 I2].
+      + unfold step. cbv zeta. destruct (Qle_bool (snd best) (Qabsd y rough)); [exact Hb|reflexivity].
+      + intros x Hx. unfold step. cbv zeta. destruct (Qle_bool (snd best) (Qabsd y rough)) eqn:E.
+        * apply in_app_or in Hx. destruct Hx as [Hx|[<-|[]]]; [apply Hs; exact Hx|apply Qle_bool_iff; exact E].
+        * cbn [snd]. assert (Hlt : (Qabsd y rough <= snd best)%Q).
+          { destruct (Qleb_total (snd best) (Qabsd y rough)) as [H|H]; [congruence|apply Qle_bool_iff; exact H]. }
+          apply in_app_or in Hx. destruct Hx as [Hx|[<-|[]]]; [|apply Qle_refl].
+          eapply Qle_trans; [exact Hlt|apply Hs; exact Hx].
+      + split; [exact I1|]. intros x Hx. apply I2. rewrite <- app_assoc. exact Hx. }
+  intros Hw. destruct (G bin_widths ((1 # 100)%Q, Qabsd (1 # 100) rough) [(1 # 100)%Q] eq_refl) as [G1 G2].
+  - intros x [<-|[]]. apply Qle_refl.
+  - fold step in G1, G2 |- *. rewrite <- G1. apply G2. right. exact Hw.
+Qed.
+Lemma Qabsd_is_distance a b : (Qabsd a b == Qabs (a - b))%Q.
+Proof.
+  unfold Qabsd. destruct (Qle_bool a b) eqn:E.
+  - apply Qle_bool_iff in E. rewrite Qabs_neg; [ring|]. apply (Qplus_le_l _ _ b). ring_simplify. exact E.
+  - assert (H : (b <= a)%Q) by (destruct (Qleb_total a b) as [H|H]; [congruence|apply Qle_bool_iff; exact H]).
+    rewrite Qabs_pos; [reflexivity|]. apply (Qplus_le_l _ _ b). ring_simplify. exact H.
 Qed.
